@@ -231,6 +231,68 @@ def image_of(recs):
     return img
 
 
+def lfsr_part(chk, vdir, rd, tier, rnd):
+    """TMS1000 / TMS1100 (ListingLfsr.tla): programs of one-byte instructions at the start, in the middle and at the end of
+    pages, in both chapters of the TMS1100; the listing lines are lexed and TLC compares their claims with the hex output"""
+    import re as _re
+    exe = os.path.join(vdir, "naken_asm")
+    wd = os.path.join(rd, "lfsr")
+    os.makedirs(wd)
+    # mnemonics without an operand that the assembler takes: from the decoder's renderings of all 256 bytes
+    events, nprog = [], 0
+    for cpu, origins in (("tms1000", [0, 0x3d, 0x1c0, 0x3c0, 0x3f8]), ("tms1100", [0, 0x3d, 0x3c0, 0x400, 0x43d, 0x7c0, 0x7f8])):
+        dcases = [("%s.%02x" % (cpu, b), "kind=dis cpu=%s addr=0" % cpu, "%02x00" % b) for b in range(256)]
+        words = sorted({o["text"].strip() for o in C.conform_parallel(vdir, "codec", dcases, rd, "lfsr" + cpu, 10, nproc=4)
+                        if o.get("acc") and o.get("text") and " " not in o["text"].strip()})
+        if len(words) < 8:
+            raise C.InfraError("only %d operand-free %s instructions" % (len(words), cpu))
+        for oi, org in enumerate(origins):
+            for k in range(2 if tier == "quick" else 6):
+                n = [3, 9, 20, 70][(oi + k) % 4]
+                if org + n > (0x400 if cpu == "tms1000" else 0x800):
+                    n = 5
+                ins = [words[(7 * j + 3 * k + oi) % len(words)] for j in range(n)]
+                src = ".%s\n.org 0x%x\n" % (cpu, org) + "".join("  %s\n" % w for w in ins)
+                base = "%s_%d_%d" % (cpu, oi, k)
+                open(os.path.join(wd, base + ".asm"), "w").write(src)
+                p = subprocess.run([exe, "-l", "-o", base + ".hex", base + ".asm"], cwd=wd, stdout=subprocess.PIPE, stderr=subprocess.STDOUT, timeout=20)
+                hp, lp = os.path.join(wd, base + ".hex"), os.path.join(wd, base + ".lst")
+                if p.returncode != 0 or not os.path.exists(hp) or not os.path.exists(lp):
+                    continue
+                recs = T.LEXERS["hex"](open(hp, "rb").read())
+                img = image_of(recs)
+                lines = []
+                for ln in open(lp, errors="replace").read().split("\n"):
+                    m = _re.match(r"^([0-9a-f]{3})\|(\d+) (?:([0-9a-f])/)?([0-9a-f])/([0-9a-f]{2}): ([0-9a-f]{2}) ", ln)
+                    if m:
+                        lines.append(dict(lin=int(m.group(1), 16), pos=int(m.group(2)), c=int(m.group(3), 16) if m.group(3) else 0,
+                                          p=int(m.group(4), 16), ll=int(m.group(5), 16), b=int(m.group(6), 16)))
+                nprog += 1
+                events.append(dict(id=base, cpu=cpu, lines=lines, img=[dict(a=a, b=b) for a, b in sorted(img.items())], src=src))
+    if nprog < 10:
+        raise C.InfraError("only %d TMS1000/TMS1100 programs assembled" % nprog)
+    canaries = set()
+    for e in rnd.sample([x for x in events if x["lines"]], 4):
+        c = json.loads(json.dumps(e))
+        c["id"] = "canary." + e["id"]
+        c["lines"][0]["b"] ^= 1
+        canaries.add(c["id"])
+        events.append(c)
+    srcs = {e["id"]: e.pop("src") for e in events}
+    verdicts, runs = C.tlc_accept("TraceListingLfsr", "trace_ListingLfsr.cfg", events, rd, "lfsr", heap="2g", nchunks=2)
+    for r in runs:
+        chk.add_tlc(r)
+    bad = {v["id"]: v["why"] for v in verdicts}
+    if [c for c in canaries if c not in bad]:
+        raise C.InfraError("LFSR listing canaries accepted")
+    for vid, why in sorted(bad.items()):
+        if vid in canaries:
+            continue
+        cpu = vid.split("_")[0]
+        chk.report("lst:%s:%s" % (cpu, why), "%s: the listing of\n%s" % (why, srcs[vid]), dict(source=srcs[vid], why=why))
+    return nprog
+
+
 def run(tier, seed):
     chk = C.Check(PROP, tier, seed, "model_checking")
     vdir = C.ensure_build("rel")
@@ -407,13 +469,15 @@ def run(tier, seed):
     if nskip > len(events) * 0.25:
         raise C.InfraError("too many programs outside the model: %s" % {k: (sorted(v) if isinstance(v, set) else v) for k, v in skipped.items()})
     nreal = len(events) - len(canaries)
+    nlfsr = lfsr_part(chk, vdir, rd, tier, rnd)
     chk.cov.update(dict(
+        lfsr_programs=nlfsr,
         evaluations=nreal, traces_validated_against_impl=nreal - nskip,
         distinct_nontrivial=len([1 for cid in parsed if len(meta[cid][1]) >= 3]),
         rule="TLC enumerates statement sequences (org/label/insn/data/resb/macro/repeat/include); each chosen shape is "
              "rendered per CPU with instructions of that CPU's corpus pool; plus, per CPU, every pool instruction (quick: 48 of them) behind the "
              "shortest instruction and behind itself; non-trivial = three or more statements",
-        cpus=sorted(pools), cpus_without_pool=sorted(set(by) - set(pools)), cpus_mostly_rejected=bad_cpus,
+        cpus=sorted(pools), cpus_without_pool=sorted(set(by) - set(pools) - {"tms1000", "tms1100"}), cpus_mostly_rejected=bad_cpus,
         shapes=len(shapes), programs=len(jobs), rejected_by_assembler=rejected,
         outside_model={k: v for k, v in skipped.items() if not k.startswith("cpus:")},
         entries=sum(len(e["entries"]) for e in events), rows=sum(len(e["rows"]) for e in events),
